@@ -83,6 +83,7 @@ theorem release_without_clearing_fires_again_witness :
 example : releaseRuns 3 [⟨"CloseNotifier", true, true⟩, ⟨"Sys", true, true⟩, ⟨"expBuffer", true, true⟩, ⟨"CodeCloser", true, true⟩]
     = [["CloseNotifier", "Sys", "expBuffer", "CodeCloser"], [], []] := by decide
 
+set_option maxRecDepth 8192 in
 /-- the rule on the source, regenerated: every `X != nil` branch of `ensureResourcesClosed` that releases something
 sets that field to nil (`mem != nil` only guards the nested test of the memory's buffer) -/
 theorem release_clears_every_resource_it_releases :
